@@ -374,7 +374,7 @@ func classify(err error) string {
 		class = "rejected"
 	case has("cannot call Sleep"):
 		class = "state"
-	case has("invalid"), has("too long"):
+	case has("invalid"), has("too long"), has("empty topic"):
 		class = "invalid"
 	case has("closed"):
 		class = "closed"
